@@ -217,7 +217,7 @@ def run_histories(case):
 def _history_cases(tier):
     for spec in E.ROW_WISE + E.SIDE_EFFECT:
         for ci in range(len(spec.configs(tier))):
-            yield {"spec": spec.name, "cfg": ci, "tier": tier, "depth": 3 if tier == "quick" else 4}
+            yield {"spec": spec.name, "cfg": ci, "tier": tier, "depth": 3 if tier == "quick" else 5}
 
 
 # ---------------------------------------------------------------- co-occurrence family / tree: parameter objects and history
@@ -449,13 +449,13 @@ def run_fault(case):
 
 def _fault_cases(tier):
     for path in ("sparse", "lil", "generator", "sinkhorn"):
-        for block in (1, 2, 5):
+        for block in ((1, 2, 5) if tier == "quick" else (1, 2, 3, 4, 5)):
             for use_cachedir in (False, True):
                 yield {"path": path, "block": block, "site": "none", "k": 0, "use_cachedir": use_cachedir}
                 for bad in range(5):
                     yield {"path": path, "block": block, "site": "none", "k": 0, "use_cachedir": use_cachedir, "bad_row": bad}
                 for site in FAULT_SITES:
-                    for k in range(1, 8 if tier == "quick" else 12):
+                    for k in range(1, 8 if tier == "quick" else 16):
                         yield {"path": path, "block": block, "site": site, "k": k, "use_cachedir": use_cachedir}
 
 
